@@ -1,5 +1,7 @@
 import TTV.Lemmas.RunHandlers
 import TTV.Spec.C01
+import TTV.Lemmas.RunSkel
+import TTV.Generated.RunSkel
 /-! # C01 — every test run is bracketed and yields exactly one outcome
 
 All theorems are about `TTV.Run.runOnce` (one `case.run(result)`) for **every** program (any nesting of
@@ -255,5 +257,24 @@ def demo : Program :=
 
 example : wf demo = true := by decide
 example : demo.skipDeco = none := rfl
+
+/-! ### tie to the source: the control skeleton of `RunTest._run_core`
+`TTV.Generated.RunSkel.runCore` is produced by `harness/pyskel.py` from `testtools/runtest.py` on every run. -/
+/-- the model's `runCore` is the interpretation of the control skeleton found in the source (test not skipped
+by decorator): same final state, `addSuccess` called exactly when the model says a success is due, no `addSkip`, no
+statement the translator did not recognise -/
+theorem C01_src_run_core (p : Program) (ff0 : Bool) (h : p.skipDeco = none) :
+    let s := RunSkel.interp p Generated.RunSkel.runCore { rs := initRS p ff0 }
+    (s.rs, s.succ) = runCore p ff0 ∧ s.skipped = false ∧ s.bad = false := by
+  have e : Generated.RunSkel.runCore = RunSkel.refRunCore := by decide
+  rw [e]; exact RunSkel.interp_refRunCore p ff0 h
+
+/-- … and for a test skipped by decorator the source reports the skip and returns before any stage runs
+(as `runOnce` models it) -/
+theorem C01_src_run_core_skip (p : Program) (ff0 : Bool) (h : p.skipDeco.isSome) :
+    let s := RunSkel.interp p Generated.RunSkel.runCore { rs := initRS p ff0 }
+    s.skipped = true ∧ s.succ = false ∧ s.rs = initRS p ff0 ∧ s.bad = false := by
+  have e : Generated.RunSkel.runCore = RunSkel.refRunCore := by decide
+  rw [e]; exact RunSkel.interp_refRunCore_skip p ff0 h
 
 end TTV.Props.C01
